@@ -115,6 +115,8 @@ fn macro_cases() -> Vec<Vec<Token>> {
         // last repeat group not closed by `;` before ST
         v.push(vec![tok("DCS!z1", &format!("\x1bP1;0;1!z!{};41\x1b\\", n)), tok("CSI*z", "\x1b[1*z")]);
         v.push(vec![tok("DCS!z1", &format!("\x1bP1;0;1!z4142!{};4344\x1b\\", n)), tok("CSI*z", "\x1b[1*z")]);
+        // two-byte characters: the macro space is counted in UTF-8 bytes (String::len)
+        v.push(vec![tok("DCS!z1", &format!("\x1bP1;0;1!zE9!{};E941;0A\x1b\\", n)), tok("CSI*z", "\x1b[1*z")]);
     }
     // macro invocation from inside a DCS
     v.push(vec![def(1, &hex("\x1bPxx\x1b[1*z")), tok("DCSmacroinside", "\x1bPyy\x1b[1*zzz\x1b\\")]);
